@@ -160,9 +160,9 @@ Qed.
 
 (* Before the repair (a51183e) LLBUILD_TASK_ID was written after the unfiltered requested and inherited entries, so it
    did not win.  Witness: a base environment containing LLBUILD_TASK_ID=z (an llbuild running inside an llbuild task). *)
-Theorem env_unrepaired_refuted :
+Theorem env_v0_refuted :
   exists bid lid tid requested base,
-    lookup K_TASK_ID (build_env_unrepaired bid lid tid requested true base None) <> Some tid.
+    lookup K_TASK_ID (build_env_v0 bid lid tid requested true base None) <> Some tid.
 Proof.
   exists [49], [48], [97; 98], [], [K_TASK_ID ++ [61; 122]]. vm_compute. discriminate.
 Qed.
